@@ -21,6 +21,12 @@ def setup():
         print(log[-4000:])
         print('setup: coq build FAILED')
         return 1
+    # the correspondence steps import modules outside the closure of props/*.vo (trace models, state tables): build everything now
+    # (a failure here is not fatal for setup: common.ensure_imports_built rebuilds what a cases file needs and reports it there)
+    ok, log = common.coq_make(['-k', 'all'], timeout=3000)
+    if not ok:
+        print(log[-2000:])
+        print('setup: WARNING: some development file outside the property closures did not build')
     try:
         import extract_build
         if not extract_build.build_all():
